@@ -60,7 +60,7 @@ func init() {
 			"and 3-6 target files whose paths contain blanks, quotes, non-ASCII and `..` segments; every target holds a unique total so that `klog total @name` identifies the resolved file. each operation is a separate `main.Run` on a fresh context over one config folder (state flows only through bookmarks.json), 1 in 16 histories as real processes of the binary. " +
 			"after EVERY operation: `bookmarks list` parsed and compared with the reference map (set equality; order for plain lower-case names), bookmarks.json decoded independently == map with absolute paths, two `bookmarks info` and `klog total @name` probes incl. an absent name and the default-bookmark resolution without argument; " +
 			"a failed unset must return non-zero and leave bookmarks.json byte-identical; at the end every key is probed. non-trivial & distinct = histories with >=2 overwrites, >=1 successful and >=1 failed unset and a clear followed by further sets, by hash",
-		Assumptions: []string{"names starting with '-' (read as flags), names containing ' -> ' and file arguments starting with '@' are outside the stated domain; concurrent invocations are not claimed"},
+		Assumptions: []string{"names starting with '-' (read as flags) and names containing ' -> ' are outside the stated domain; a path argument of `bookmarks set` may start with '@' (it is a path), an input argument starting with '@' is a bookmark reference; concurrent invocations are not claimed"},
 		MaxShards:   16,
 		Planned:     func(tier string, seed uint64) int64 { return map[string]int64{"quick": 200, "thorough": 6000}[tier] },
 		Run:         runC19,
@@ -99,8 +99,13 @@ func c19History(e *core.Env, r *core.Rand, idx int64) {
 	for t := 0; t < nT; t++ {
 		dir := filepath.Join(root, dirs[r.Intn(len(dirs))])
 		_ = os.MkdirAll(dir, 0755)
-		name := fmt.Sprintf("t%d %s.klg", t, r.Pick("a", "b c", "é", "x'y"))
+		// few base names over several directories: different targets often share their base name
+		name := r.Pick("times.klg", "b c.klg", "é.klg", "x'y.klg")
 		abs := filepath.Join(dir, name)
+		if _, err := os.Stat(abs); err == nil {
+			name = fmt.Sprintf("t%d %s", t, name)
+			abs = filepath.Join(dir, name)
+		}
 		_ = os.WriteFile(abs, []byte(fmt.Sprintf("2020-01-01\n    %dm\n", 1000+t)), 0644)
 		arg := abs
 		if r.Chance(1, 3) {
@@ -108,6 +113,18 @@ func c19History(e *core.Env, r *core.Rand, idx int64) {
 		}
 		targetArgs = append(targetArgs, arg)
 		targetAbs = append(targetAbs, abs)
+	}
+	// a target given as a relative path whose first character is '@' (a file name, not a bookmark: `bookmarks set` takes a path);
+	// the history runs with the root as working directory
+	if old, werr := os.Getwd(); werr == nil && os.Chdir(root) == nil {
+		defer os.Chdir(old)
+		if r.Chance(1, 2) {
+			rel := r.Pick("@home.klg", "@times.klg", "@work")
+			_ = os.WriteFile(filepath.Join(root, rel), []byte(fmt.Sprintf("2020-01-01\n    %dm\n", 1000+nT)), 0644)
+			targetArgs = append(targetArgs, rel)
+			targetAbs = append(targetAbs, filepath.Join(root, rel))
+			nT++
+		}
 	}
 	missing := filepath.Join(root, "plain", "does not exist.klg")
 	// names
@@ -244,6 +261,18 @@ func c19History(e *core.Env, r *core.Rand, idx int64) {
 			}
 		case "set-missing":
 			args = []string{"bookmarks", "set", missing, op.Name}
+			if r.Chance(1, 3) && len(model) > 0 {
+				// a relative path that spells an existing bookmark (`@name`): still a path, and no such file exists
+				keys := make([]string, 0, len(model))
+				for k := range model {
+					keys = append(keys, k)
+				}
+				sort.Strings(keys)
+				cand := "@" + keys[r.Intn(len(keys))]
+				if _, serr := os.Stat(filepath.Join(root, cand)); serr != nil {
+					args[2] = cand
+				}
+			}
 			expectOK = false
 		case "set-force":
 			args = []string{"bookmarks", "set", "--force", missing, op.Name}
